@@ -41,7 +41,7 @@ RULE = (
 ASSUMPTIONS = ["an alias registered again replaces the earlier registration for evaluations that are not already stored"]
 FLOORS = {"histories": (1500, 12000), "uncached_evaluations_exact": (4000, 35000), "cached_evaluations_checked": (4000, 35000),
           "selected_registered_impl": (1000, 10000), "late_registrations_effective": (800, 6000), "interface_member_evaluations": (15000, 50000),
-          "rejected_implementations": (2000, 3000), "reregistrations": (400, 3000), "derivative_dispatch_changes": (150, 1200)}
+          "rejected_implementations": (2000, 3000), "reregistrations": (400, 3000), "derivative_dispatch_changes": (150, 1200), "self_referential_evaluations": (2000, 16000)}
 SHARDS_QUICK = 4
 ALIASES = ["x", "y", "z", 0, 1, None, "a", {"tuple": ["ds1", "default"]}, {"tuple": ["t", 1]}]
 
@@ -416,17 +416,92 @@ def snapshot_tables(ifaces):
     return out
 
 
+def self_referential(ctx, r, case):
+    """Implementations that consume a DERIVATIVE of the very dataset they are registered on (the derivative pins the
+    dispatch value and shares the dataset's store): while one dispatch value is being computed, the same store is asked
+    for - and answers - another.  Every evaluation still returns the value of ITS dispatch value."""
+    from labrea import dataset
+
+    form = r.choice(["key", "option-default"])
+    disp = "D" if form == "key" else Option("D", "plain")
+
+    def plain(a=Option("A", 0)):
+        return ("plain", a)
+
+    ds = dataset(plain, dispatch=disp)
+    pinned_plain = ds.with_options({"D": "plain"})
+
+    def fancy(inner=pinned_plain, b=Option("B", 0)):
+        return ("fancy", inner, b)
+
+    ds.overload("fancy")(fancy)
+    pinned_fancy = ds.with_options({"D": "fancy"}) if r.random() < 0.5 else ds.with_default_options({"A": 7}).with_options({"D": "fancy"})
+
+    def shout(inner=pinned_fancy, other=pinned_plain):
+        return ("shout", inner, other)
+
+    ds.overload(["shout", "yell"])(shout)
+    seven = "A" if pinned_fancy.default_options else None
+
+    def model(o):
+        d, a, b = o.get("D", "plain" if form != "key" else None), o.get("A", 0), o.get("B", 0)
+        if d == "fancy":
+            return ("fancy", ("plain", a), b)
+        if d in ("shout", "yell"):
+            a2 = o.get("A", 7) if seven else a
+            return ("shout", ("fancy", ("plain", a2), b), ("plain", a))
+        return ("plain", a)
+
+    trail = []
+    for step in range(r.choice([4, 6, 9])):
+        o = {}
+        if r.random() < 0.85:
+            o["D"] = r.choice(["plain", "fancy", "fancy", "shout", "yell", "other"])
+        if r.random() < 0.7:
+            o["A"] = r.choice([1, 2])
+        if r.random() < 0.3:
+            o["B"] = r.choice([1, 2])
+        off = r.random() < 0.15
+        subject = r.choice([ds, ds, ds, pinned_plain, pinned_fancy])
+        oo = dict(o)
+        if subject is pinned_plain:
+            oo["D"] = "plain"
+        elif subject is pinned_fancy:
+            oo["D"] = "fancy"
+            if seven and "A" not in oo:
+                oo["A"] = 7
+        exp = ("ok", canon(model(oo)))
+        if off:
+            with labrea.cache.disabled():
+                got = observe(subject.evaluate, copy.deepcopy(o))
+        else:
+            got = observe(subject.evaluate, copy.deepcopy(o))
+        trail.append([o, "off" if off else "on", "ds" if subject is ds else ("pinned-plain" if subject is pinned_plain else "pinned-fancy")])
+        ctx.evaluations += 1
+        ctx.count("self_referential_evaluations")
+        if got != exp:
+            ctx.violation("self-referential-implementation", f"step {step}: {trail[-1]} gives {short(got)}; its dispatch value selects {short(exp)}",
+                          {"family": "self-referential", "case": case, "shard": ctx.shard, "shards": ctx.shards, "trail": trail})
+            return
+    ctx.nontrivial(spec_hash(["self-referential", form, trail]))
+
+
 def run(ctx):
     n = ctx.n(2000, 16000)
     for i in range(n):
         r = case_rng(ctx, i)
         run_history(ctx, gen_history(r), "random")
         interface_case(ctx, r)
+        if i % 4 == 0:
+            self_referential(ctx, case_rng(ctx, ("selfref", i)), i)
 
 
 def replay(ctx, rep):
     w = rep["witness"]
-    if "history" in w:
+    if w.get("family") == "self-referential":
+        ctx.shard, ctx.shards = w.get("shard", 0), w.get("shards", 1)
+        self_referential(ctx, case_rng(ctx, ("selfref", w["case"])), w["case"])
+    elif "history" in w:
         run_history(ctx, w["history"], "replay")
     else:
         run(ctx)
